@@ -43,6 +43,7 @@ struct Fixture {
         } catch (std::exception&) {}
     }
 };
+static bool vary_edge_ends = true;   // the length-3 token harness keeps the enclosing edge well-formed (its budget goes into the third token)
 // one block through the DocumentBuilder back end, then a valid block with the same builder (exposes unbalanced stacks), then the type checker
 static void run_document_backend(Fixture& fx, const Entry& en, const std::string& text)
 {
@@ -51,7 +52,7 @@ static void run_document_backend(Fixture& fx, const Entry& en, const std::string
     const char* outcome = "returned";
     bool edge_ctx = en.part == S_GUARD || en.part == S_ASSIGN || en.part == S_SYNC || en.part == S_SELECT || en.part == S_PROBABILITY;
     // the edge around an edge label may itself have failed to be added (unknown source, target of the wrong kind): the reader still parses its labels
-    int ends = edge_ctx ? vf_pick("!edge_ends", 3) : 0;
+    int ends = edge_ctx && vary_edge_ends ? vf_pick("!edge_ends", 3) : 0;
     bool proc_ctx = edge_ctx || en.part == S_INVARIANT || en.part == S_EXPONENTIAL_RATE || en.part == S_LOCAL_DECL || en.part == S_PARAMETERS;
     try {
         // labels are parsed between the callbacks the XML reader issues around them
@@ -119,6 +120,7 @@ extern "C" void harness_tokens2()  /* vf: tier=quick bounds=15_grammar_entry_poi
 extern "C" void harness_tokens3()  /* vf: tier=thorough bounds=15_grammar_entry_points_x_all_token_strings_of_length_3;same_back_ends time_limit=3300 max_paths=4000000 reach=end */
 {
     Fixture fx(false); PropFixture pf;
+    vary_edge_ends = false;
     int e = vf_pick("!entry", NENTRIES);
     const Entry& en = ENTRIES[e];
     std::string text = token_string(en, 3);
